@@ -10,7 +10,13 @@ use crate::http::Request;
 #[cfg(feature = "dot")]
 use dot_graph::{Edge, Graph, Node};
 use serde::{Deserialize, Serialize};
+#[cfg(kani)]
+use crate::verif_shim::map::HashSet;
+#[cfg(kani)]
+use crate::verif_shim::sorted::{BTreeMap, BTreeSet};
+#[cfg(not(kani))]
 use std::collections::BTreeSet;
+#[cfg(not(kani))]
 use std::collections::{BTreeMap, HashSet};
 use std::sync::Arc;
 
